@@ -73,6 +73,9 @@ type guardSite struct {
 	// LenVers: a []byte parameter / local that the function re-assigns (`value = pad(value, n)`): its
 	// length is the Lean parameter <base>0 before the first re-assignment, <base>1 after it, …
 	LenVers map[string]string
+	// Makes: every `make(T, n, …)` of the function: how many error conditions precede it in the source,
+	// the condition of the branch it sits in, and its length (and capacity) arguments
+	Makes bool
 	// OnlyRets: write only the `_returns` / `_args` definitions (the site's conditions are written elsewhere)
 	OnlyRets bool
 }
@@ -104,6 +107,7 @@ type guardTr struct {
 	loops    []string    // loop conditions
 	updates  map[string][]string   // Updates: variable -> "(keep, delta)" per assignment
 	inits    map[string][]string   // Updates: variable -> the value of each defining statement (`x := e`, `var x int`)
+	makes    []string              // Makes: "(k, cond, [sizes])"
 	slices   []string              // Slices: "[lo, hi]" per slice expression, in source order
 	rets     []retCase             // Rets: condition of a success return -> rendered results
 	args     map[string][]retCase  // Args: callee -> (path condition, rendered arguments) per call
@@ -647,6 +651,33 @@ func (tr *guardTr) sliceBounds(st ast.Stmt) {
 	})
 }
 
+// makeSizes: the `make` calls of one statement (not of the blocks nested in it)
+func (tr *guardTr) makeSizes(st ast.Stmt, path string) {
+	if !tr.site.Makes {
+		return
+	}
+	ast.Inspect(st, func(n ast.Node) bool {
+		switch x := n.(type) {
+		case *ast.BlockStmt:
+			return false
+		case *ast.CallExpr:
+			if id, ok := x.Fun.(*ast.Ident); ok && id.Name == "make" && len(x.Args) >= 2 {
+				var sizes []string
+				for _, a := range x.Args[1:] {
+					v, _ := tr.intExpr(a)
+					sizes = append(sizes, v)
+				}
+				c := path
+				if c == "" {
+					c = "true"
+				}
+				tr.makes = append(tr.makes, fmt.Sprintf("(%d, %s, [%s])", len(tr.guards), c, strings.Join(sizes, ", ")))
+			}
+		}
+		return true
+	})
+}
+
 // callArgs: the integer arguments of the calls the site asks for, where the call is made
 func (tr *guardTr) callArgs(e ast.Expr, path string) {
 	if len(tr.site.Args) == 0 || e == nil {
@@ -708,6 +739,7 @@ func (tr *guardTr) walk(b *ast.BlockStmt, path string, top bool) {
 			tr.callArgs(es.X, path)
 		}
 		tr.sliceBounds(st)
+		tr.makeSizes(st, path)
 		switch s := st.(type) {
 		case *ast.AssignStmt:
 			for _, r := range s.Rhs {
@@ -1217,6 +1249,9 @@ func genGuardFile(file string, sites []guardSite) {
 			tr.tracked(u)
 			fmt.Fprintf(&sb, "/-- the value `%s` is defined with (`%s := e`, `var %s int` = 0) -/\ndef %s_init_%s%s : List Int := %s\n\n", u, u, u, s.Name, u, params, leanBoolList(tr.inits[u]))
 			fmt.Fprintf(&sb, "/-- every assignment to `%s` after its definition, in source order, as (keep, delta): the new value is keep * old + delta -/\ndef %s_updates_%s%s : List (Int × Int) := %s\n\n", u, s.Name, u, params, leanBoolList(tr.updates[u]))
+		}
+		if s.Makes {
+			fmt.Fprintf(&sb, "/-- every `make` of the function, in source order: the number of error conditions (entries of `_guards`) that precede it,\nthe condition of the branch it sits in, and its length (and capacity) -/\ndef %s_makes%s : List (Nat × Bool × List Int) := %s\n\n", s.Name, params, leanBoolList(tr.makes))
 		}
 		if s.Slices {
 			fmt.Fprintf(&sb, "/-- the bounds `[lo, hi]` of every slice expression `x[lo:hi]` of the function, in source order (-1: absent) -/\ndef %s_slices%s : List (List Int) := %s\n\n", s.Name, params, leanBoolList(tr.slices))
